@@ -36,6 +36,7 @@ import (
 	"strings"
 	"sync"
 	"sync/atomic"
+	"syscall"
 	"time"
 
 	"github.com/krotik/ecal/config"
@@ -247,6 +248,8 @@ type c02State struct {
 	change  []int          // PCT: priority change points (hook event numbers)
 	step    int
 	low     int
+	cmu     sync.Mutex
+	counts  map[string]int
 }
 
 var c02Cur atomic.Pointer[c02State]
@@ -306,6 +309,25 @@ func c02EventNode(e interface{}) int {
 // goroutine that saw zero before PostEvent, hold a non-last finisher right after Unlock; 4 PCT: a
 // random priority per goroutine, lower priorities are slowed down at every hook point, three
 // priority change points; 5 = 1+2+3.
+// count adds to a per-case counter (hook goroutines run concurrently: not CountRun directly)
+func (st *c02State) count(key string) {
+	st.cmu.Lock()
+	st.counts[key]++
+	st.cmu.Unlock()
+}
+
+// flush hands the per-case counters to the run statistics (case goroutine only)
+func (st *c02State) flush() {
+	st.cmu.Lock()
+	defer st.cmu.Unlock()
+	for k, v := range st.counts {
+		for i := 0; i < v; i++ {
+			CountRun(k)
+		}
+	}
+	st.counts = map[string]int{}
+}
+
 func (st *c02State) has(mode int) bool {
 	d := st.plan.sched
 	return d == mode || (d == 5 && mode >= 1 && mode <= 3)
@@ -333,7 +355,7 @@ func c02Hook(point string, args ...interface{}) {
 			st.mu.Unlock()
 			if d {
 				time.Sleep(300 * time.Microsecond)
-				CountRun("sched: adder held after AddTask until the cascade posted")
+				st.count("sched: adder held after AddTask until the cascade posted")
 				break
 			}
 			time.Sleep(50 * time.Microsecond)
@@ -472,7 +494,7 @@ func c02Hook(point string, args ...interface{}) {
 			d := st.obsDone > obs0
 			st.mu.Unlock()
 			if d {
-				CountRun("sched: failing task held between SetErrors and Finish until another AllErrors call")
+				st.count("sched: failing task held between SetErrors and Finish until another AllErrors call")
 				break
 			}
 			time.Sleep(50 * time.Microsecond)
@@ -482,15 +504,15 @@ func c02Hook(point string, args ...interface{}) {
 		st.mu.Unlock()
 		return
 	case actHoldLock:
-		CountRun("sched: finisher held inside the root lock with one monitor outstanding (2 ms)")
+		st.count("sched: finisher held inside the root lock with one monitor outstanding (2 ms)")
 		time.Sleep(2 * time.Millisecond)
 		return
 	case actHoldZeroSeer:
-		CountRun("sched: zero-seer held before PostEvent")
+		st.count("sched: zero-seer held before PostEvent")
 		time.Sleep(500 * time.Microsecond)
 		return
 	case actHoldAfterUnlock:
-		CountRun("sched: non-last finisher held after Unlock")
+		st.count("sched: non-last finisher held after Unlock")
 		time.Sleep(300 * time.Microsecond)
 		return
 	}
@@ -598,12 +620,17 @@ func c02NilEntries(errs []*engine.TaskError) int {
 
 type c02Fin interface{ IsFinished() bool }
 
+var c02Stderr *os.File
+
 func c02Run(payload string) string {
+	if c02Stderr != nil {
+		fmt.Fprintf(c02Stderr, "CASE %s\n", payload)
+	}
 	plan := c02Parse(payload)
 	st := &c02State{plan: plan, rng: NewRand(plan.seed), rootOf: map[uint64]int{}, dense: map[uint64]int{},
 		nextID: map[int]int{}, goIdx: map[uint64]int{}, trace: map[int][]string{}, nilSeen: map[int]int{},
 		handed: map[int][]engine.Monitor{}, stamps: map[int]map[string]int64{}, goCasc: map[uint64]int{},
-		posted: map[uint64]int{}, obsRun: map[uint64]int{}, holds: map[uint64]int{}, prio: map[uint64]int{}, low: 1000}
+		posted: map[uint64]int{}, obsRun: map[uint64]int{}, holds: map[uint64]int{}, prio: map[uint64]int{}, low: 1000, counts: map[string]int{}}
 	for i := 0; i < 3; i++ {
 		st.change = append(st.change, 1+st.rng.Intn(300))
 	}
@@ -690,6 +717,7 @@ func c02Run(payload string) string {
 	})
 
 	c02Cur.Store(st)
+	defer st.flush()
 	defer c02Cur.Store(nil)
 	proc.Start()
 
@@ -953,6 +981,7 @@ func c02RunEcal(plan *c02Plan, st *c02State) string {
 		return "ECAL-SETUP-ERROR " + oneLine(err.Error())
 	}
 	c02Cur.Store(st)
+	defer st.flush()
 	defer c02Cur.Store(nil)
 	proc.Start()
 
@@ -1099,6 +1128,13 @@ func init() {
 		NoRestartOnPanic: false,
 		Tool:             c02Tool,
 		Setup: func() {
+			// keep everything the process writes to stderr (a panic of a worker goroutine: message
+			// and stacks) in a file next to the case files: the parent only sees a short tail
+			if f, err := os.OpenFile(fmt.Sprintf("c02.stderr.%d", os.Getpid()), os.O_CREATE|os.O_WRONLY|os.O_APPEND, 0644); err == nil {
+				if syscall.Dup2(int(f.Fd()), 2) == nil {
+					c02Stderr = f
+				}
+			}
 			verifhook.SetHandler(c02Hook)
 			xPkgOnce.Do(func() { stdlib.AddStdlibPkg("x", "verification harness functions") })
 			check(stdlib.AddStdlibFunc("x", "c02stamp", c02Stamp{}))
